@@ -78,6 +78,7 @@ func evalC13(cs *c13Case) (vs []*Violation, ok bool) {
 		c.Extra = map[string]any{"case": cs}
 		vs = append(vs, &Violation{Property: "C13", Site: "ParseSIPMsg", Rule: rule, Class: class, Detail: detail, Case: c})
 	}
+	defer recoverTo3(add)
 	am, an, ae := parseMsgCfg(buf, 40, 40, cs.Flags, -1)
 	if ae != 0 {
 		return
@@ -152,6 +153,7 @@ func evalC13List(cs *c13List) (vs []*Violation) {
 		c.Extra = map[string]any{"case": cs}
 		vs = append(vs, &Violation{Property: "C13", Site: site, Rule: rule, Class: class, Detail: detail, Case: c})
 	}
+	defer recoverTo3(add)
 	run := func(capn, cut int) (string, int, sipsp.ErrorHdr, int, bool, []string) {
 		cfg := &Cfg{Flags: cs.Flags, ValCap: capn, HdrCap: -1}
 		var obs string
@@ -174,7 +176,7 @@ func evalC13List(cs *c13List) (vs []*Violation) {
 			for i := 0; i < o.L.HNo(); i++ {
 				items = append(items, fmt.Sprint(o.L.Hdrs[i].Name, o.L.Hdrs[i].Val, o.L.Hdrs[i].All))
 			}
-			obs = fmt.Sprint(o.Total)
+			obs = fmt.Sprint(o.Total, "empty=", o.L.Empty())
 		} else {
 			o := uriParamsDrv.New(cfg)
 			offs := 0
@@ -189,7 +191,7 @@ func evalC13List(cs *c13List) (vs []*Violation) {
 			for i := 0; i < o.L.PNo(); i++ {
 				items = append(items, fmt.Sprint(o.L.Params[i].Param.Name, o.L.Params[i].Param.Val, o.L.Params[i].Param.All, o.L.Params[i].T))
 			}
-			obs = fmt.Sprint(o.Total, o.L.Types)
+			obs = fmt.Sprint(o.Total, o.L.Types, "empty=", o.L.Empty())
 		}
 		return obs, n, e, N, more, items
 	}
